@@ -182,6 +182,9 @@ def plain_value(token: Token):
 class KitOutputProcessor(DefaultCommandOutputProcessor):
     async def process(self, job, command_output, connector=None, recoverable=False):
         value = (await command_output).value
+        # collecting a job's outputs is I/O on the job's location (listing, checksums): it takes an environment-owned
+        # amount of time, so other jobs' commands may complete in between (seeded defect C07-1 lives in this window)
+        await _gate(f"collect:{job.name}")
         return await build_kit_token(self.workflow.context, job, value, recoverable)
 
 
